@@ -147,3 +147,25 @@ Theorem C16_float_order_is_real_order : forall f a b,
   (fkey f a ?= fkey f b) = (fkey_real f a ?= fkey_real f b).
 Proof. exact fkey_order_is_real_order. Qed.
 Print Assumptions C16_float_order_is_real_order.
+
+From Sbepp Require Import SrcTables SrcTablesProofs.
+
+(* The same statements about the tables AS THEY ARE WRITTEN IN /repo NOW:
+   SrcTables.v is regenerated from types_compiler.hpp / sbepp.hpp on every run
+   (harness/srctables.py), so an edited default literal or built-in definition
+   breaks these theorems. *)
+Theorem C16_source_default_literals_denote_sbe_defaults : stmt_src_defaults_denote.
+Proof. exact src_defaults_denote. Qed.
+Print Assumptions C16_source_default_literals_denote_sbe_defaults.
+
+Theorem C16_source_default_literals_are_the_modelled_ones : stmt_src_defaults_are_model.
+Proof. exact src_defaults_are_model. Qed.
+Print Assumptions C16_source_default_literals_are_the_modelled_ones.
+
+Theorem C16_source_builtin_types_expose_sbe_defaults : stmt_src_builtins.
+Proof. exact src_builtins_ok. Qed.
+Print Assumptions C16_source_builtin_types_expose_sbe_defaults.
+
+Theorem C16_source_wrapper_of_each_primitive : stmt_src_wrappers.
+Proof. exact src_wrappers. Qed.
+Print Assumptions C16_source_wrapper_of_each_primitive.
